@@ -427,7 +427,7 @@ Definition args_ok (c : case) : bool :=
   if (f =? F_UNIQKEY) || (f =? F_UNIQKEY_IP) then (1 <=? arg c 0) && (arg c 0 <=? 1000) else
   if (f =? F_FILTER) || (f =? F_FILTER_IP) || (f =? F_INDEXFN) || (f =? F_CONTAINSFN) then (0 <=? arg c 0) && (arg c 0 <? 2 ^ 60) else
   if f =? F_VALUES then (-1000 <=? arg c 0) && (arg c 0 <=? 1000) && (-1000 <=? arg c 1) && (arg c 1 <=? 1000) else
-  true.
+  (1 <=? f) && (f <=? 21).
 Definition wf_case (c : case) : bool :=
   match c_mem c with
   | [] :: rest => forallb (wf_slice (c_mem c)) (c_sl c) && forallb (forallb elem_ok) rest && args_ok c
@@ -516,11 +516,15 @@ Definition inplace_ok (c : case) (o : out) (expect : list Z) : bool :=
            && perm_b (win_after c o 0) (vals0 c 0)
   | _ => false
   end.
-Definition sel_ok (c : case) (o : out) (expect : list Z) : bool :=
-  negb (layout_claimed (sl c 0) (sl c 1)) || res_is o expect.
+(* the five dst-taking functions called with a dst that overlaps s1 elsewhere than at its start: the property says nothing *)
+Definition is_sel (f : Z) : bool :=
+  (f =? F_DIFF) || (f =? F_INTER) || (f =? F_UNIQUE) || (f =? F_UNIQKEY) || (f =? F_FILTER).
+Definition unclaimed_sel (c : case) : bool := is_sel (c_f c) && negb (layout_claimed (sl c 0) (sl c 1)).
+Definition sel_ok (c : case) (o : out) (expect : list Z) : bool := res_is o expect.
 
 Definition judge (c : case) (o : out) : bool :=
   let f := c_f c in
+  if unclaimed_sel c then true else
   if o_panic o then false else
   if f =? F_DIFF then sel_ok c o (spec_diff (vals0 c 1) (vals0 c 2)) else
   if f =? F_DIFF_IP then inplace_ok c o (spec_diff (vals0 c 0) (vals0 c 1)) else
